@@ -49,4 +49,7 @@ CutNeverExtra == (status \in {"eof", "error"} /\ fault.k = "cut") =>
   /\ Len(out) <= Len(msgs)
 NeverBeyondFrame == \A i \in 1..Len(out) : out[i].limit <= Len(buf)
 PosMonotone == [][pos' >= pos]_vars
+\* liveness (MC_P2P_live.cfg): under weak fairness of the machine's own step every stream is read to its end or to an error
+LiveSpec == Init /\ [][Next]_vars /\ WF_vars(Next)
+ParserTerminates == <>(status \in {"eof", "error"})
 =============================================================================
